@@ -78,8 +78,8 @@ func (p *recProc) Process(in, out *frugal.FProtocol) error {
 	}
 	return err
 }
-func (p *recProc) AddMiddleware(m frugal.ServiceMiddleware)        { p.inner.AddMiddleware(m) }
-func (p *recProc) Annotations() map[string]map[string]string      { return p.inner.Annotations() }
+func (p *recProc) AddMiddleware(m frugal.ServiceMiddleware)  { p.inner.AddMiddleware(m) }
+func (p *recProc) Annotations() map[string]map[string]string { return p.inner.Annotations() }
 func (p *recProc) rejected() (n int) {
 	for _, c := range p.results {
 		if c != "ok" && c != "err:eof" {
@@ -99,7 +99,8 @@ func (d c05DrainProc) Process(in, out *frugal.FProtocol) error {
 	atomic.AddInt64(d.handled, 1)
 	ft := in.Transport().(*frugal.TFramedTransport)
 	if n := ft.RemainingBytes(); n > 0 {
-		if _, err := io.ReadFull(ft, make([]byte, n)); err != nil {
+		// reads of at most what is left of the frame (io.LimitReader), nothing allocated by frame size
+		if _, err := io.CopyN(io.Discard, ft, int64(n)); err != nil {
 			return err
 		}
 	}
@@ -247,3 +248,62 @@ func init() {
 	lineOps["ssa"] = realSSALine(false)
 	lineOps["ssp"] = realSSALine(true)
 }
+
+// ---------- suite ----------
+
+func genPingFrame(r *Rng, base int) func(i int) []byte {
+	return func(i int) []byte { return pingRequest(uint64(base+i), string(r.Bytes(r.Intn(6)))) }
+}
+
+func genDrainFrame(r *Rng) func(i int) []byte {
+	return func(i int) []byte {
+		m := genHeaders(r, true)
+		m["_opid"] = strconv.Itoa(1 + r.Intn(1<<20))
+		p := genPayload(r)
+		if len(p) > 64 {
+			p = p[:64]
+		}
+		return append(marshalSorted(m), p...)
+	}
+}
+
+func runC05Srv(r *Rng, n int) {
+	for i := 0; i < n; i++ {
+		chunk := r.Pick(0, 0, 1, 2, 3, 5, 7, 64)
+		// draining processor: compared with the model
+		stream, why := genStream(r, genDrainFrame(r))
+		stream = tameAlloc(stream)
+		run := realAccept(stream, chunk, false)
+		line := fmt.Sprintf("ssa %s %d", hx(stream), chunk)
+		Case(line, run.show(false))
+		Stat("ssa:mutation:" + why)
+		Stat("ssa:ret:" + run.ret)
+		if v := ssaOracle(run); v != "" {
+			OracleFail(v, map[string]interface{}{"op": "ssa", "line": line, "in": hx(stream), "mutation": why, "got": run.show(false), "process_results": run.results})
+		}
+		// the real FBaseProcessor with a method: oracle only (Thrift's readers are environment)
+		stream, why = genStream(r, genPingFrame(r, 100*i))
+		stream = tameAlloc(stream)
+		run = realAccept(stream, chunk, true)
+		line = fmt.Sprintf("ssp %s %d", hx(stream), chunk)
+		Stat("ssp:mutation:" + why)
+		Stat("ssp:ret:" + run.ret)
+		Stat(fmt.Sprintf("ssp:calls=%d", run.handled))
+		if i < 3 {
+			Sample(map[string]interface{}{"op": "ssp", "mutation": why, "stream_len": len(stream), "real": run.show(true)})
+		}
+		if v := ssaOracle(run); v != "" {
+			OracleFail(v, map[string]interface{}{"op": "ssp", "line": line, "in": hx(stream), "mutation": why, "got": run.show(true), "process_results": run.results})
+		}
+		// a fresh connection is served after whatever the previous ones did
+		if i%16 == 0 {
+			ok := realAccept(framed(pingRequest(7, "x")), 0, true)
+			if ok.ret != "ok" || ok.handled != 1 || ok.replies != 1 {
+				OracleFail("a fresh connection with one well-formed request is not served: "+ok.show(true), map[string]interface{}{"op": "ssp", "line": "ssp " + hx(framed(pingRequest(7, "x"))) + " 0", "got": ok.show(true)})
+			}
+		}
+		Stat("evaluations")
+	}
+}
+
+func init() { suites["c05srv"] = runC05Srv }
